@@ -90,6 +90,20 @@ CLAIMED = {
             "six decades; running-coupling bypass checked through the THDM Yukawa getters.",
             "m_b(SM5) reference re-implements hep-ph/0207126 formulas; one open known finding (Landau pole above m_b)",
             "4/C20"),
+    "C15": ("property-based testing (Hypothesis): differential comparison program output vs library API for the same text, "
+            "cross-format agreement, arithmetic consistency of the detailed report (grammar-based parsing)",
+            "Generated valid inputs of the three formats x flag combinations, each executed in all five output formats; "
+            "printed numbers are compared with the API to printed precision, sums and percentages are recomputed, SLHA "
+            "echo is compared block-wise. The thorough tier enumerates all 96 flag combinations per input (480 runs).",
+            "input generator and SLHA tools of pbt/common/slha.py (shared with C13); sampling of inputs",
+            "4/C15"),
+    "C16": ("property-based testing (Hypothesis): fault injection of documented defects into valid points, expectation "
+            "table for exception class / exit status / diagnostics, control group of valid points",
+            "Generated valid MSSM and THDM points with one or two documented defects, crossed with force-output, the C++ API "
+            "and the program in each input format and output format; refusal, exit status, absence of physics output, "
+            "presence of diagnostics and finiteness of undiagnosed results are checked.",
+            "defect table written from README/doxygen; the C entry points are exercised by C17",
+            "4/C16"),
     "C18": ("property-based testing (Hypothesis): documented uncertainty sums recomputed from the public a_mu functions; "
             "overload differential",
             "Generated MSSM and THDM models including light new physics and cancelling loop orders; finiteness, sign, "
